@@ -11,6 +11,8 @@ DEFS = [
     Tpl("s1|xx", "DEFGATE {n} a AS SEQUENCE:\n\t{h} a\n\t{k} a", n=("str", NAMES), h=("str", NAMES), k=("str", NAMES)),
     Tpl("s1p|xp", "DEFGATE {n}(%t) a AS SEQUENCE:\n\t{h}(%t) a", n=("str", NAMES), h=("str", NAMES)),
     Tpl("s1p|x-rz", "DEFGATE {n}(%t) a AS SEQUENCE:\n\t{h} a\n\tRZ(%t) a", n=("str", NAMES), h=("str", NAMES)),
+    Tpl("s1p|xf", "DEFGATE {n}(%t) a AS SEQUENCE:\n\t{h}(cos(%t)) a", n=("str", NAMES), h=("str", NAMES)),       # the formal only inside a function call
+    Tpl("s1p|xfi", "DEFGATE {n}(%t) a AS SEQUENCE:\n\t{h}(2*sin(%t)) a", n=("str", NAMES), h=("str", NAMES)),    # ... and under an infix operator
     Tpl("s2|x2", "DEFGATE {n} a b AS SEQUENCE:\n\t{h} b a", n=("str", NAMES), h=("str", NAMES)),
     Tpl("s2|x1x1", "DEFGATE {n} a b AS SEQUENCE:\n\t{h} a\n\t{k} b", n=("str", NAMES), h=("str", NAMES), k=("str", NAMES)),
     Tpl("s2|x1", "DEFGATE {n} a b AS SEQUENCE:\n\t{h} a", n=("str", NAMES), h=("str", NAMES)),
@@ -26,7 +28,9 @@ BODY = [
     Tpl("g1var", "{g} v", g=("str", NAMES)),
     Tpl("nop", "NOP"),
 ]
-QUICK_DEFS = ("s1|x", "s1|xx", "s1p|xp", "s1p|x-rz", "s2|x2", "s2|x1", "s1|empty", "s1|dagger", "matrix")
+# C21 only: a calibration whose body invokes a (possibly sequence-defined) gate; neither entry point may treat it differently from the other
+CALS = [Tpl("cal|x", "DEFCAL P 0:\n\t{h} 0", h=("str", NAMES)), Tpl("cal|xv", "DEFCAL P v:\n\t{h} v", h=("str", NAMES))]
+QUICK_DEFS = ("s1|x", "s1|xx", "s1p|xp", "s1p|x-rz", "s1p|xf", "s2|x2", "s2|x1", "s1|empty", "s1|dagger", "matrix")
 CHAIN_DEFS, CHAIN_BODY = ("s1|x",), ("g1",)
 QUICK_BODY = ("g1", "g1p", "g2", "g1dagger", "g1var")
 ERR_KINDS = ("ParameterCount", "GateModifiersUnsupported", "CyclicSequenceGateDefinition", "QubitCount", "NonFixedQubitArgument")
@@ -232,9 +236,9 @@ class SeqCheck(Check):
     functions = ["Program::{expand_defgate_sequences,expand_defgate_sequences_with_source_map,initialize_defgate_sequence_expander,add_instructions}",
                  "filter_sequence_gate_definitions_to_keep", "ProgramDefGateSequenceExpander::{expand,expand_with_source_map,expand_with_source_map_impl,expand_without_source_map_impl,"
                  "gate_sequence_from_instruction}", "ExpansionStack::{check,with_gate_sequence}", "DefGateSequence::expand", "Expression::substitute_variables", "GateDefinition::signature"]
-    assumptions = ["programs of <= K gate definitions (7 sequence shapes of one or two elements, one or two qubits, with / without a parameter, plus a matrix definition) with definition and "
+    assumptions = ["programs of <= K gate definitions (8 sequence shapes of one or two elements, one with the formal parameter inside a function call, one or two qubits, with / without a parameter, plus a matrix definition) with definition and "
                    "element names solver-chosen from {A,B,C} (so nesting, self-reference, cycles, redefinition and arity mismatches all occur), and <= N body instructions from 6 templates",
-                   "the filter selects a solver-chosen subset of {A,B,C}", "petgraph Graph / has_path_connecting modelled as adjacency lists with concrete reachability"]
+                   "the filter selects a solver-chosen subset of {A,B,C}", "C21, programs of one definition: optionally one DEFCAL (fixed or variable qubit) whose body invokes a gate named from {A,B,C}", "petgraph Graph / has_path_connecting modelled as adjacency lists with concrete reachability"]
     outside = ["more than K definitions or N body instructions", "sequence elements with more than two qubits", "definitions that DefGateSequence::try_new rejects (they cannot be parsed)"]
     K = {"quick": 2, "thorough": 3}
     N = {"quick": 1, "thorough": 2}
@@ -253,7 +257,7 @@ class SeqCheck(Check):
 
     def setup(self, world, runner, tier):
         self.td = world.td
-        parse_templates(runner, world.td, DEFS + BODY)
+        parse_templates(runner, world.td, DEFS + BODY + CALS)
 
     def path(self, m):
         td = m.td
@@ -265,8 +269,9 @@ class SeqCheck(Check):
         n = m.choose([(j, None) for j in range(1, self.N[m.tier] + 1)]) if k <= K else 1
         bn = [t.name for t in self.body_tpls(m.tier)] if k <= K else list(CHAIN_BODY)
         bnames = [m.choose([(x, None) for x in bn]) for _ in range(n)]
-        m.ctx = {"shapes": shapes, "body": bnames}
-        by = {t.name: t for t in DEFS + BODY}
+        cal = m.choose([(x, None) for x in [None] + [t.name for t in CALS]]) if self.prop == "C21" and k == 1 else None
+        m.ctx = {"shapes": shapes, "body": bnames, "cal": cal}
+        by = {t.name: t for t in DEFS + BODY + CALS}
         sel = [m.fresh_bool(f"sel_{x}") for x in NAMES]
         prog = m.call_path("Program::new", [])
         cell = [prog]
@@ -275,6 +280,9 @@ class SeqCheck(Check):
             a, hv = instantiate(m, by[s], f"d{j}_")
             if s == "s1|empty": a = empty_sequence_value(td, a)
             defs.append(to_tree(m, a))
+            m.call_path("Program::add_instruction", [Ref(cell, 0), a])
+        if cal:
+            a, hv = instantiate(m, by[cal], "cal_")
             m.call_path("Program::add_instruction", [Ref(cell, 0), a])
         for j, s in enumerate(bnames):
             a, hv = instantiate(m, by[s], f"b{j}_")
@@ -344,8 +352,9 @@ class SeqCheck(Check):
 
     def case(self, kind, detail, model):
         ctx = model["_ctx"]
-        by = {t.name: t for t in DEFS + BODY}
+        by = {t.name: t for t in DEFS + BODY + CALS}
         lines = [by[s].render(hole_values(by[s], f"d{j}_", model)) for j, s in enumerate(ctx["shapes"])]
+        if ctx.get("cal"): lines.append(by[ctx["cal"]].render(hole_values(by[ctx["cal"]], "cal_", model)))
         lines += [by[s].render(hole_values(by[s], f"b{j}_", model)) for j, s in enumerate(ctx["body"])]
         empty = [j for j, s in enumerate(ctx["shapes"]) if s == "s1|empty"]
         return {"program": "\n".join(lines), "selected": [x for x in NAMES if model.get(f"sel_{x}")], "empty": empty,
